@@ -38,6 +38,7 @@ pub struct CaseResult {
     pub digests: Vec<String>,
     pub aborted: Option<String>,
     pub opkinds: String,
+    pub sample: Option<Value>,
 }
 impl CaseResult {
     pub fn viol(&mut self, prop: &'static str, name: &str, detail: String) {
@@ -84,6 +85,11 @@ impl CaseResult {
             let t: Vec<String> = self.trace.iter().map(|s| trunc(s, 700)).collect();
             v["trace"] = json!(t);
         }
+        if let Some(sm) = &self.sample {
+            if with_trace || !self.violations.is_empty() {
+                v["sample"] = sm.clone();
+            }
+        }
         if !self.digests.is_empty() {
             v["digest_seq"] = json!(gen::sha(self.digests.join(",").as_bytes())[..20].to_string());
             if with_trace {
@@ -126,6 +132,10 @@ pub struct Profile {
     pub final_sync: bool,
     pub hostile_info: bool,
     pub perm_listing: bool,
+    pub backend: String,
+    pub tmp: String,
+    /// percentage of updates that are immediately followed by a commit
+    pub commit_after_update: usize,
 }
 
 pub fn profile(name: &str) -> Profile {
@@ -134,13 +144,16 @@ pub fn profile(name: &str) -> Profile {
     let mut p = Profile {
         name: name.to_string(),
         nrep: (2, 4),
-        steps: (20, 45),
+        steps: (30, 60),
         w: general,
         doc: DocProfile::default(),
         caps: vec![1, 2, 3, 16],
         final_sync: true,
         hostile_info: true,
         perm_listing: true,
+        backend: "mem".to_string(),
+        tmp: std::env::temp_dir().to_string_lossy().to_string(),
+        commit_after_update: 40,
     };
     match name {
         "general" => {}
@@ -154,6 +167,7 @@ pub fn profile(name: &str) -> Profile {
             p.nrep = (1, 2);
             p.w = [50, 22, 5, 0, 0, 2, 0, 3, 2, 6, 3, 5, 0, 0, 2];
             p.steps = (15, 35);
+            p.commit_after_update = 15;
         }
         "kind" => {
             // C04 kind-change profile
@@ -185,6 +199,16 @@ pub fn profile(name: &str) -> Profile {
             p.w = [22, 14, 14, 4, 5, 5, 5, 8, 5, 5, 6, 3, 4, 6, 3];
             p.doc.id_pool = 7;
         }
+        "long" => {
+            // long per-object histories: revision indices cross 9 -> 10 (numeric vs textual order)
+            p.nrep = (2, 2);
+            p.steps = (90, 140);
+            p.w = [60, 8, 10, 0, 1, 1, 2, 4, 1, 1, 1, 1, 1, 0, 3];
+            p.doc.id_pool = 5;
+            p.doc.kind_change = false;
+            p.doc.nested = false;
+            p.commit_after_update = 25;
+        }
         "noconflictdocs" => {
             // plain strings/ids (used where hostile content is not the point, e.g. Miri)
             p.doc.hostile_strings = false;
@@ -211,6 +235,7 @@ pub struct Rep {
     pub writes_seen: usize,
     pub dead: bool,
     pub caps: (u32, u32),
+    pub path: Option<String>,
 }
 
 pub struct World {
@@ -284,7 +309,21 @@ impl World {
         let mut reps = vec![];
         let mut res = CaseResult::default();
         for i in 0..nrep {
-            let (ad, st) = store::mon_mem();
+            let path = if prof.backend == "mem" { None } else { Some(format!("{}/w_{}_{}_{}_{}", prof.tmp, prof.backend.replace('+', "_"), seed, case, i)) };
+            let (ad, st) = match &path {
+                None => store::mon_mem(),
+                Some(p) => {
+                    crate::backends::cleanup(p);
+                    match crate::backends::make(&prof.backend, p) {
+                        Outcome::Ok(b) => store::mon_over(b),
+                        o => {
+                            res.viol("C17", &format!("backend-open-failed-{}", prof.backend.replace('+', "-")), o.describe());
+                            res.aborted = Some("backend cannot be opened".into());
+                            store::mon_mem()
+                        }
+                    }
+                }
+            };
             if prof.perm_listing && r.chance(50) {
                 *st.perm_seed.lock().unwrap() = Some(r.next());
             }
@@ -314,6 +353,7 @@ impl World {
                 writes_seen: 0,
                 dead: false,
                 caps,
+                path,
             });
         }
         World { reps, prof, r, res, case, revtab: BTreeMap::new(), key_hash: BTreeMap::new(), step: 0 }
@@ -1308,6 +1348,30 @@ impl World {
         let exp = self.reps[i].clean.clone();
         let caps = (*self.r.pick(&self.prof.caps), *self.r.pick(&self.prof.caps));
         self.t(format!("r{}.reopen caps={:?}", i, caps));
+        if let Some(p) = self.reps[i].path.clone() {
+            if crate::backends::persistent(&self.prof.backend) {
+                // a genuinely new adapter object on the same directory / database file
+                match crate::backends::make(&self.prof.backend, &p) {
+                    Outcome::Ok(b) => {
+                        let perm = *self.reps[i].st.perm_seed.lock().unwrap();
+                        let (ad, st) = store::mon_over(b);
+                        *st.perm_seed.lock().unwrap() = perm;
+                        self.reps[i].ad = ad;
+                        self.reps[i].st = st;
+                        self.reps[i].writes_seen = 0;
+                    }
+                    o => {
+                        let what = format!("backend-reopen-failed-{}", self.prof.backend.replace('+', "-"));
+                        if let Outcome::Panic(pn) = &o {
+                            self.panic_viol("C17", &what, pn);
+                        } else {
+                            self.res.viol("C17", &what, o.describe());
+                        }
+                        return;
+                    }
+                }
+            }
+        }
         match open_with(&self.reps[i].ad, caps) {
             Outcome::Ok(m2) => {
                 let o2 = observe(&m2);
@@ -1393,6 +1457,12 @@ impl World {
             OP_UPDATE => {
                 let d = self.next_doc(i);
                 self.do_update(i, d);
+                if !self.reps[i].dead && self.r.chance(self.prof.commit_after_update) {
+                    let o = observe(&self.reps[i].m);
+                    self.reps[i].cur = o;
+                    self.res.opkinds.push('b');
+                    self.do_commit(i);
+                }
             }
             OP_REVERT => {
                 let k = self.r.below(self.reps[i].doc_hist.len());
@@ -1548,4 +1618,57 @@ pub fn run_case(seed: u64, case: u64, prof: &Profile) -> World {
     let _ = guard_plain(|| ());
     w.run();
     w
+}
+
+impl World {
+    /// Adds a replica opened on a private copy of `files`, optionally replaying a stage export.
+    pub fn add_fork(&mut self, files: &Files, stage: &Option<Value>, caps: (u32, u32)) -> Option<usize> {
+        let (ad, st) = store::mon_mem();
+        for (k, v) in files {
+            let _ = store::put(&ad, k, v);
+        }
+        let m = match open_with(&ad, caps) {
+            Outcome::Ok(m) => m,
+            o => {
+                self.res.viol("C08", "fork-open-failed", o.describe());
+                return None;
+            }
+        };
+        if stage.is_some() {
+            let r = guard(|| m.replay_stage(stage));
+            if !r.is_ok() {
+                self.res.viol("C15", "fork-replay-failed", r.describe());
+                return None;
+            }
+        }
+        let cur = observe(&m);
+        self.reps.push(Rep {
+            ad,
+            st,
+            m,
+            behind: false,
+            travelled: None,
+            last_doc: None,
+            doc_hist: vec![],
+            clean: cur.clone(),
+            cur,
+            heads_log: vec![],
+            prev_files: BTreeMap::new(),
+            writes_seen: 0,
+            dead: false,
+            caps,
+            path: None,
+        });
+        Some(self.reps.len() - 1)
+    }
+}
+
+impl Drop for World {
+    fn drop(&mut self) {
+        for r in &self.reps {
+            if let Some(p) = &r.path {
+                crate::backends::cleanup(p);
+            }
+        }
+    }
 }
